@@ -23,10 +23,11 @@ SPEC = {
              "flavour {static, dynamic} x federation {off, enable_federation() only, entity type + resolver} x schema mode {enabled, disabled, "
              "introspection-only} x request mode {same three} x transport {execute, execute_stream} = 108 configurations, each crossed with "
              "query, mutation and subscription documents: every single-field document of the seven field classes (__typename, __schema, __type, "
-             "_service, _entities, the root's user field, an unknown field) and every subscription document on all 108 configurations; all pairs "
+             "_service, _entities, the root's user field, an unknown field) on all 108 configurations; all pairs "
              "of classes, all-classes documents in both orders, five inline-fragment/fragment-spread shapes around every class, repeated response "
-             "keys and fragments on foreign types on the 54 configurations of the `execute` transport in the quick tier (execute_stream hands queries "
-             "and mutations to the same execute_once) and on all 108 in the thorough tier (ordered pairs there); plus n random documents (up to 3 "
+             "keys and fragments on foreign types: in the quick tier on the 54 configurations of the `execute` transport for queries and mutations "
+             "(execute_stream hands them to the same execute_once) and on the 54 of `execute_stream` for subscriptions (`execute` refuses every "
+             "subscription), in the thorough tier on all 108 (ordered pairs there); plus n random documents (up to 3 "
              "fragments, nesting 3) on 12 random configurations each.  Observed per case: which response keys carry which class of value "
              "(null / type name / metadata object / SDL / entity list / user value), whether data and errors were returned, and how often each "
              "user resolver (Query.q, Mutation.m, Subscription.s, entity resolver) ran.  distinct by (configuration, document text); "
